@@ -188,6 +188,142 @@ def export_leaf_appends_clones(atom, f, node, site):
         return inner.endswith(".append") and not inner.startswith("self.")
     return False
 
+_KIND_LISTS = {"BaseSection": ("_sections", "sections"), "BaseProperty": ("_props", "properties")}
+
+
+def _precheck_loop(atom, f, first, second_iter):
+    """obligations of the PRECHECKED contract on the first loop of an extend method (see the contract text).
+    Returns the set of kinds whose elements are known to carry names that are new to the child list of that
+    kind and pairwise distinct, or an empty set."""
+    from .logic import known
+    if not (isinstance(first, ast.For) and not first.orelse and isinstance(first.target, ast.Name)
+            and isinstance(first.iter, ast.Name) and first.iter.id == second_iter):
+        return set()
+    if any(isinstance(x, (ast.Break, ast.Continue, ast.Return)) for x in ast.walk(first)):
+        return set()
+    y = first.target.id
+    g = atom.s.cfg(f)
+    hd = next((n for n in g.nodes if n.kind == "for" and n.ast is first), None)
+    if hd is None:
+        return set()
+    me = f.params[0]
+    name_txt = "%s._name" % y      # getter-normalised text
+
+    def add_of(n):
+        """(collection local) when node n is `S.append(y.name)` / `S.add(y.name)`"""
+        if n.kind != "stmt" or not isinstance(n.ast, ast.Expr) or not isinstance(n.ast.value, ast.Call):
+            return None
+        c = n.ast.value
+        if isinstance(c.func, ast.Attribute) and c.func.attr in ("append", "add") and isinstance(c.func.value, ast.Name) \
+                and len(c.args) == 1 and not c.keywords and norm(c.args[0]) == name_txt:
+            return c.func.value.id
+        return None
+
+    body = set()
+    stack = [m for k, m in hd.succ if k == "iter"]
+    while stack:
+        n = stack.pop()
+        if n.id in body or n.id == hd.id:
+            continue
+        body.add(n.id)
+        stack.extend(m for k, m in n.succ if k != "exc")
+    adds = [(n, add_of(n)) for n in g.nodes if n.id in body and add_of(n)]
+    if not adds:
+        return set()
+    # every completed iteration passes one of the adds
+    seen = set()
+    stack = [m for k, m in hd.succ if k == "iter"]
+    add_ids = set(n.id for n, _ in adds)
+    while stack:
+        n = stack.pop()
+        if n.id == hd.id:
+            return set()
+        if n.id in seen or n.id in add_ids:
+            continue
+        seen.add(n.id)
+        stack.extend(m for k, m in n.succ if k != "exc")
+    kinds = {}
+    for n, coll in adds:
+        # the collection: one empty literal definition before the loop, otherwise only read by `in` and filled by these adds
+        defs = [st for st in ast.walk(f.node) if isinstance(st, (ast.Assign, ast.AugAssign, ast.AnnAssign, ast.For, ast.With,
+                                                                  ast.NamedExpr, ast.comprehension, ast.ExceptHandler))
+                and (getattr(st, "name", None) == coll or
+                     any(isinstance(t, ast.Name) and t.id == coll and isinstance(t.ctx, ast.Store) for t in ast.walk(st)
+                         if t is not st))]
+        defs = [st for st in defs if not isinstance(st, (ast.For, ast.With)) or
+                any(isinstance(t, ast.Name) and t.id == coll for tt in ([st.target] if isinstance(st, ast.For) else
+                                                                         [i.optional_vars for i in st.items if i.optional_vars is not None])
+                    for t in ast.walk(tt))]
+        if len(defs) != 1 or not isinstance(defs[0], ast.Assign) or defs[0].lineno >= first.lineno:
+            return set()
+        v = defs[0].value
+        if isinstance(v, ast.Tuple) and isinstance(defs[0].targets[0], ast.Tuple):
+            idx = [i for i, t in enumerate(defs[0].targets[0].elts) if isinstance(t, ast.Name) and t.id == coll]
+            v = v.elts[idx[0]] if idx and len(v.elts) == len(defs[0].targets[0].elts) else None
+        empty = (isinstance(v, (ast.List, ast.Set)) and not v.elts) or \
+                (isinstance(v, ast.Call) and isinstance(v.func, ast.Name) and v.func.id in ("list", "set") and not v.args)
+        if not empty:
+            return set()
+        for u in ast.walk(f.node):
+            if isinstance(u, ast.Attribute) and isinstance(u.value, ast.Name) and u.value.id == coll and u.attr not in ("append", "add"):
+                return set()
+        found = None
+        for kind, lists in _KIND_LISTS.items():
+            def classify(lf, kind=kind, lists=lists):
+                if isinstance(lf, ast.Call) and isinstance(lf.func, ast.Name) and lf.func.id == "isinstance" and len(lf.args) == 2 \
+                        and norm(lf.args[0]) == y and norm(lf.args[1]).split(".")[-1] == kind:
+                    return "K"
+                if isinstance(lf, ast.Compare) and len(lf.ops) == 1 and isinstance(lf.ops[0], ast.In) and norm(lf.left) == name_txt:
+                    r = lf.comparators[0]
+                    if isinstance(r, ast.Name) and r.id == coll:
+                        return "S"
+                    if isinstance(r, ast.Attribute) and isinstance(r.value, ast.Name) and r.value.id == me and r.attr in lists:
+                        return "C"
+                return None
+            if known(g, n, classify, lambda a: a["K"], ["K"], start=hd) and known(g, n, classify, lambda a: not a["C"], ["C"], start=hd) \
+                    and known(g, n, classify, lambda a: not a["S"], ["S"], start=hd):
+                found = kind
+        if found is None or kinds.get(coll, found) != found or (found in kinds.values() and coll not in kinds):
+            return set()
+        kinds[coll] = found
+    return set(kinds.values())
+
+
+def extend_names_prechecked(atom, f, node, site):
+    """X.extend(objs) -> self.append(obj) in a loop over the parameter: a first loop over the same parameter refuses every
+    element that is not a Section/Property, whose name is used in the child list of its kind, or whose name occurred
+    earlier in the argument (a local collection filled on every completed iteration). The refusals of append (kind,
+    name clash) therefore cannot happen in the second loop."""
+    if f.short not in ("base.Sectionable.extend", "section.BaseSection.extend") or not site.chain or site.evkind != "call":
+        return False
+    if _callee(site) != "append" or not _is_self(f, _recv(site)):
+        return False
+    if site.origin[0] not in ("base.SmartList.append", "base.Sectionable.append", "section.BaseSection.append") \
+            or site.exc not in ("KeyError", "ValueError"):
+        return False
+    c = site.call
+    if len(c.args) != 1 or c.keywords or not isinstance(c.args[0], ast.Name):
+        return False
+    tops = list(f.node.body)
+    second = next((st for st in tops if isinstance(st, ast.For) and any(x is c for x in ast.walk(st))), None)
+    if second is None or not (isinstance(second.target, ast.Name) and second.target.id == c.args[0].id
+                              and isinstance(second.iter, ast.Name) and second.iter.id in f.params):
+        return False
+    p = second.iter.id
+    if any(isinstance(t, ast.Name) and t.id == p and isinstance(t.ctx, ast.Store) for t in ast.walk(f.node)):
+        return False
+    i2 = tops.index(second)
+    firsts = [st for st in tops[:i2] if isinstance(st, ast.For)]
+    if not firsts:
+        return False
+    first = firsts[-1]
+    between = tops[tops.index(first) + 1:i2]
+    if any(isinstance(x, (ast.Call, ast.Attribute)) for st in between for x in ast.walk(st)):
+        return False
+    kinds = _precheck_loop(atom, f, first, p)
+    want = {"BaseSection"} if f.short == "base.Sectionable.extend" else {"BaseSection", "BaseProperty"}
+    return kinds == want
+
 
 ATOM_CONTRACTS = [
     {"id": "INV-I", "match": inv_i_remove, "derived": True,
@@ -220,6 +356,11 @@ ATOM_CONTRACTS = [
      "reason": "BaseSection.export_leaf -> par.append(child): only fresh clones are appended to fresh clones (child is self only "
                "while `curr != self` is false), so a refusal cannot leave the document changed",
      "obligations": "C11 LEAF-1 (every object handled in export_leaf is a clone)"},
+    {"id": "PRECHECKED", "match": extend_names_prechecked, "derived": True,
+     "reason": "extend -> self.append(obj) in a second loop over the parameter: the first loop refused foreign kinds, names used in "
+               "the child list of the kind and names repeated inside the argument, so append's kind and clash refusals are dead",
+     "obligations": "shape of the first loop is re-checked on every run (kind, child list and seen-names tests known at the "
+                    "statement that records the name; every completed iteration records it)"},
     {"id": "UNMERGE-REMOVE", "match": unmerge_remove_found_child, "derived": False,
      "reason": "BaseSection.unmerge -> self.remove(obj): obj came from self.contains(...) in the same activation",
      "obligations": "removals holds only results of self.contains; no removal between selection and remove"},
